@@ -16,6 +16,7 @@
 import RotoV.Lemmas.BoundaryPlace
 import RotoV.Lemmas.BoundaryPinned
 import RotoV.Lemmas.BoundaryValues
+import RotoV.Model.BoundaryParams
 
 namespace RotoV.C05
 open RotoV RotoV.Boundary RotoV.Gen.BoundaryTables
@@ -322,5 +323,118 @@ theorem abi_agree_when_pinned_iff (h : HostLayouts) (hh : h.WF) (s : BSig) (hp :
 /-- non-vacuity of both directions -/
 example : BTy.isZstVal (.val ⟨0, 8⟩) = true ∧ BTy.isZstVal (.val ⟨4, 4⟩) = false
     ∧ BTy.isZstVal (.option (.val ⟨0, 1⟩)) = false := by decide
+
+/-! ### Parameter names and lowered types stay aligned (`ir_signature.parameters` of `Lowerer::item`)
+
+`sigParamsOf` is GENERATED from the iterator chain in `Lowerer::item` (adapter by adapter; a chain that zips the
+names with an already filtered list of types is translated too, and then `sig_params_aligned` stops checking).
+All statements are for every parameter list (any length, any types, zero-sized ones anywhere), every `lower_type`
+(any function `τ → Option ι`; `none` = zero-sized) and every list of argument values. -/
+
+/-- the bindings the callee makes (k-th incoming argument ↦ name and type of the k-th pair of the lowered
+    signature) are exactly the kept positions' `((name, lowered type), argument)`: a zero-sized parameter in any
+    position shifts nothing -/
+theorem sig_params_aligned {ν α τ ι : Type} (lower : τ → Option ι) (names : List ν) (tys : List τ) (args : List α) :
+    (sigParamsOf lower names tys).zip (passedArgs lower args tys) = keptParams lower names tys args := by
+  induction tys generalizing names args with
+  | nil => simp [sigParamsOf, passedArgs, keptParams]
+  | cons t ts ih =>
+    cases names with
+    | nil => simp [sigParamsOf, keptParams]
+    | cons n ns =>
+      cases args with
+      | nil => simp [passedArgs, keptParams]
+      | cons a as =>
+        have ih' := ih ns as
+        simp only [sigParamsOf, passedArgs, keptParams] at ih' ⊢
+        cases hl : lower t <;> simp [List.zip_cons_cons, hl, ih']
+
+/-- non-vacuity: a zero-sized parameter in the middle; the third name receives the third argument -/
+example : (sigParamsOf (fun b => if b then some () else none) [0, 1, 2] [true, false, true]).zip
+      (passedArgs (fun b => if b then some () else none) [10, 11, 12] [true, false, true])
+    = [((0, ()), 10), ((2, ()), 12)] := by decide
+
+/-- the lowered types of the signature are `filter_map(lower_type)` of the parameter types — what the
+    emitted constant `sigParamFilter = .lowerType` says and the ABI theorems (`abi_agree`, `call_site_agree`) use -/
+theorem sig_params_types {ν τ ι : Type} (lower : τ → Option ι) (names : List ν) (tys : List τ)
+    (hn : names.length = tys.length) :
+    (sigParamsOf lower names tys).map Prod.snd = tys.filterMap lower := by
+  induction tys generalizing names with
+  | nil => simp [sigParamsOf]
+  | cons t ts ih =>
+    cases names with
+    | nil => simp at hn
+    | cons n ns =>
+      have ih' := ih ns (by simpa using hn)
+      simp only [sigParamsOf] at ih' ⊢
+      cases hl : lower t <;> simp [List.zip_cons_cons, hl, ih']
+
+example : (sigParamsOf (fun n => if n = 0 then none else some n) ["u", "x"] [0, 4]).map Prod.snd = [4] := by decide
+
+/-- … and they are the parameter types of the model's declared signature (`rotoSig` uses
+    `keepArgs c h c.sigFilter`): for every `lower` that agrees with the model's `lowerType` on the parameter types -/
+theorem sig_params_types_model {ν : Type} (c : Cfg) (h : HostLayouts) (lo : MTy → Option IrType) (names : List ν)
+    (tys : List MTy) (hn : names.length = tys.length) (hlo : ∀ t ∈ tys, lowerType c h t = .ok (lo t)) :
+    keepArgs c h sigParamFilter tys = .ok ((sigParamsOf lo names tys).map Prod.snd) := by
+  rw [sig_params_types lo names tys hn]
+  clear hn
+  induction tys with
+  | nil => rfl
+  | cons t ts ih =>
+    have h1 := hlo t (by simp)
+    have h2 := ih (fun t ht => hlo t (by simp [ht]))
+    simp only [sigParamFilter] at h2 ⊢
+    cases hl : lo t <;> simp [keepArgs, keepArg, h1, h2, hl]
+
+/-- non-vacuity: `fn f(u: (), x: i32)` — the hypotheses hold for the model's own `lowerType` and one type is kept -/
+example :
+    let tys := [toMTy .unit, toMTy (.prim (.Int .Signed .I32))]
+    let lo : MTy → Option IrType := fun t => match lowerType Cfg.current .x64 t with | .ok x => x | .panic => none
+    (∀ t ∈ tys, lowerType Cfg.current .x64 t = .ok (lo t))
+    ∧ ((sigParamsOf lo [0, 1] tys).map Prod.snd).length = 1 := by decide
+
+/-- every parameter whose type is lowered receives the argument written in its own position -/
+theorem sig_param_receives_own_argument {ν α τ ι : Type} (lower : τ → Option ι) (names : List ν) (tys : List τ)
+    (args : List α) (i : Nat) (hn : i < names.length) (ht : i < tys.length) (ha : i < args.length) (it : ι)
+    (hk : lower tys[i] = some it) :
+    ((names[i], it), args[i]) ∈ (sigParamsOf lower names tys).zip (passedArgs lower args tys) := by
+  rw [sig_params_aligned]
+  simp only [keptParams, List.mem_filterMap]
+  refine ⟨((names[i], tys[i]), args[i]), ?_, by simp [hk]⟩
+  refine List.mem_iff_getElem.mpr ⟨i, by simp; omega, by simp⟩
+
+example : ((1, 4), 7) ∈ (sigParamsOf (fun n => if n = 0 then none else some n) [0, 1] [0, 4]).zip
+    (passedArgs (fun n => if n = 0 then none else some n) [0, 7] [0, 4]) := by decide
+
+/-- … and nothing else is bound: every binding is `(names[i], args[i])` of a position whose type is lowered -/
+theorem sig_params_bind_nothing_else {ν α τ ι : Type} (lower : τ → Option ι) (names : List ν) (tys : List τ)
+    (args : List α) (n : ν) (it : ι) (a : α)
+    (hb : ((n, it), a) ∈ (sigParamsOf lower names tys).zip (passedArgs lower args tys)) :
+    ∃ (i : Nat) (_ : i < names.length) (_ : i < tys.length) (_ : i < args.length),
+      n = names[i] ∧ a = args[i] ∧ lower tys[i] = some it := by
+  rw [sig_params_aligned] at hb
+  simp only [keptParams, List.mem_filterMap] at hb
+  obtain ⟨⟨⟨n', t'⟩, a'⟩, hm, he⟩ := hb
+  obtain ⟨i, hi, hget⟩ := List.mem_iff_getElem.mp hm
+  simp at hi
+  simp at hget
+  obtain ⟨⟨h1, h2⟩, h3⟩ := hget
+  cases hl : lower t' with
+  | none => simp [hl] at he
+  | some it' =>
+    simp [hl] at he
+    refine ⟨i, by omega, by omega, by omega, ?_, ?_, ?_⟩
+    · rw [h1]; exact he.1.1.symm
+    · rw [h3]; exact he.2.symm
+    · rw [h2, hl]; simp [he.1.2]
+
+/-- the alternative "zip the names with the already filtered types" declares the same ABI types but binds the
+    argument after a zero-sized parameter to the wrong name: `fn f(u: (), x: u32)`, `f((), 11)` binds `u ↦ 11` -/
+theorem prefiltered_zip_misaligns :
+    ∃ (lower : Bool → Option Unit) (names : List Nat) (tys : List Bool) (args : List Nat),
+      names.length = tys.length ∧ args.length = tys.length ∧
+      (sigParamsPrefiltered lower names tys).map Prod.snd = tys.filterMap lower ∧
+      (sigParamsPrefiltered lower names tys).zip (passedArgs lower args tys) ≠ keptParams lower names tys args :=
+  ⟨fun b => if b then some () else none, [0, 1], [false, true], [10, 11], by decide⟩
 
 end RotoV.C05
